@@ -68,6 +68,18 @@ def run_case(rs, ctx):
         # the rows after the prefix leave the prefix's value range (negative coordinates)
         for i in range(bounds[1], n):
             data["X"][i] = [v - 3.0 for v in data["X"][i]]
+    if l in ("lingreedy", "linucb") and p == "none" and rs.integers(3) == 0:
+        # no regularisation at all (l2_lambda = 0 is accepted by LinGreedy and LinUCB): contexts in general position, two arms,
+        # every arm with more rows than features in the prefix, so every normal matrix is regular
+        cfg["lp"]["l2"] = 0.0
+        cfg["arms"] = cfg["arms"][:2]
+        nf = int(gen.pick(rs, [1, 2, 3]))
+        n = int(rs.integers(20, 31))
+        data = {"d": [cfg["arms"][i % 2] for i in range(n)], "r": gen.gen_rewards(rs, n, "dyadic"),
+                "X": [[float(v) for v in row] for row in rs.normal(0, 2, (n, nf))]}
+        cuts = sorted(set(int(c) for c in rs.integers(12, n, int(rs.integers(1, 4)))))
+        bounds = [0] + cuts + [n]
+        ctx.count("unregularised_linear_cases")
     chunks = [gen.slice_batch(data, bounds[i], bounds[i + 1]) for i in range(len(bounds) - 1)]
     if data["X"] is not None and rs.integers(2):
         # every call may bring its contexts in another container / dtype (same values)
